@@ -290,3 +290,11 @@ Theorem C10_sleep_exact : forall fuel c e spawn script t d u,
   In (ESleep t d (Some u)) (fst (timer_run fuel c e spawn script)) -> stopped e u = false -> u = t + Z.max 0 d.
 Proof. exact law_sleep_exact. Qed.
 Print Assumptions C10_sleep_exact.
+
+(* an event resets the idle time iff it is the first sight of the object (no last-handled essence) or its essence
+   differs from the last-handled one -- whatever its type (tied to processing._detect_causes by D:reset and by the
+   timer histories, whose essential changes arrive as ADDED / MODIFIED / re-listing (None) events) *)
+Theorem C10_reset_rule : forall has_last_handled essence_changed,
+  reset_flag has_last_handled essence_changed = true <-> (has_last_handled = false \/ essence_changed = true).
+Proof. exact reset_flag_rule. Qed.
+Print Assumptions C10_reset_rule.
